@@ -750,7 +750,9 @@ class SymReal:
         return cur().branch(s.t != 0)
 
     def __hash__(s):
-        return id(s)
+        # structural: two proxies of the same term hash alike, so that a dict / functools.lru_cache keyed by a value (e.g. the
+        # temperature) hits for the same symbolic value as it would for the same float; == then decides (trivially true)
+        return hash(('SymReal', s.t.hash()))
 
     def __repr__(s):
         return f'SymReal({s.t})'
